@@ -8,31 +8,50 @@ from typing import Dict, List, Optional, Tuple
 
 from harness.lib.core import VERIF, Ctx, lean_lock, run_driver, shrink_ops
 from harness.extract import power as x_power
+from harness.extract import request_schema as x_schema   # C05x's extractor, used read-only: the schematic request tree
 from harness.rigs import power as rig
 
 MANIFEST = {
-    "text": "Lean 4 proof about an executable model of Node.power_on/power_off/reset/apply_timestep, the interface enable/disable "
-            "guards, the start-up/shut-down actions on services and applications and the node-level request routes: for every "
-            "start-up/shut-down duration (<= 0 = instant), every initial state and every sequence of node-level requests, ticks and "
-            "frames, (1) every assignment to operating_state follows ON->SHUTTING_DOWN->OFF->BOOTING->ON (shortcuts only for "
-            "duration 0); (2) a transitional state entered with duration d is held for exactly d ticks and left at tick d+1, "
-            "whatever requests arrive meanwhile; reset = shutdown then automatic start; (3) a node that is not ON has no enabled "
-            "interface, accepts and emits no frame; (4) an OFF node has no running service/application; (5) every request but "
-            "startup is refused while not ON, for the regenerated route table of every node class; (6) on reaching ON linked "
-            "interfaces, stopped services and closed applications come back. Tie: Gen/Power.lean (enum, defaults, statement shape of "
-            "the four power methods, interface guards, validators, route tables per class, software guards) + differential rig "
-            "R-node (bounded-exhaustive and random request/tick/ping sequences on two linked hosts; random sequences on a "
-            "computer-server-switch-router-firewall-wireless-router network) comparing every response, every operating_state "
-            "assignment and the whole modelled state after every operation, with implementation-side oracles for frames passing an "
-            "interface of a non-ON node.",
-    "note": "C12-specific: the software layer is summarised (service/application state + restart/install countdown); what a running "
-            "service does with a payload is C13. Power methods called through the Python API from arbitrary states (not through "
-            "requests) are modelled but the legal-moves theorem is about requests, as the property's quantifier is.",
-    "technique": "Lean 4 theorems (induction over operation sequences) over an executable power model; model tied by regenerated "
-                 "tables/shapes and a differential rig",
+    "text": "Lean 4 proof about an executable model of Node.power_on/power_off/reset/apply_timestep/pre_timestep, the interface "
+            "enable/disable/connect_link guards (NIC, router interface, switch port, wireless access point), the start-up/shut-down "
+            "actions on services and applications, the node-level request routes, the direct Python API, the scenario loader's power "
+            "calls and Network.setup_for_episode. PROVED for every start-up/shut-down duration (any integer; <= 0 = instant), every "
+            "initial state and every sequence of node-level requests, ticks and frames: (1) every assignment to operating_state "
+            "follows ON->SHUTTING_DOWN->OFF->BOOTING->ON (shortcuts only for duration <= 0); (2) a transitional state entered with "
+            "duration d is held for exactly d ticks and left at tick d+1, whatever requests arrive meanwhile and whatever the "
+            "configured durations are changed to in mid-countdown; reset = shutdown then automatic start; (3) a node that is not ON has "
+            "no enabled interface, accepts and emits no frame, and a ping along a path needs every node on it ON; (4) an OFF node has "
+            "no RUNNING or PAUSED service and no RUNNING application - (3) and (4) for ANY route table and also under direct calls of "
+            "power_on/power_off/reset/enable/disable/connect_link/service verbs/run/close/install from any state, after loading any "
+            "declared operating_state/durations/countdowns, and after episode set-up; (5) every request but startup is refused while "
+            "not ON, for the route table of every node class (ten classes, from two independent extractors); (6) per tick, a node "
+            "that is not ON executes only super/interfaces/the two countdown blocks of apply_timestep (no node scan, process, "
+            "service, application or file-system step) and no software or scan clock moves however long it stays not ON, while "
+            "every statement of pre_timestep runs regardless (counter resets, user-session time-outs); (7) on reaching ON every "
+            "linked interface is enabled and RUNNING/PAUSED/STOPPED services and RUNNING/CLOSED applications are RUNNING, DISABLED / "
+            "RESTARTING / INSTALLING software is left as it was (exact, service by service). Tie: Gen/Power.lean (enum, defaults, "
+            "statement shape of the power methods, guarded statement lists of apply_timestep and pre_timestep, interface guards and "
+            "every enable/disable definition, validators, route tables per class, inventories of every class below Node and "
+            "NetworkInterface, the power-relevant statements of constructors/loader/set-up, every power_on/power_off call site, "
+            "software guards) + Gen/RequestSchema.lean (C05x's schematic request tree) + differential rig R-node: bounded-exhaustive "
+            "and random request/tick/ping sequences on two hosts, on a six-class network, and with a node of EVERY instantiable class "
+            "under test between peers; direct API calls, run-time duration changes, negative and huge durations; whole power cycles "
+            "from assorted software states; scenario dictionaries with every declared state through PrimaiteGame.from_config and "
+            "setup_for_episode; user-session time-outs across power changes. Compared after every operation: the response, every "
+            "operating_state assignment, the whole modelled state, and per tick which sub-component pre_timestep/apply_timestep calls "
+            "the node made; implementation-side oracles for frames passing an interface of a non-ON node, enabled interfaces / "
+            "running software in the wrong state, accepted requests, moved software clocks, pings crossing a non-ON node.",
+    "note": "C12-specific: the software layer is summarised (service/application state + restart/install countdown, two node-scan "
+            "countdowns); what a running service does with a payload is C13, sessions are C16 (here only: their time-out ignores "
+            "power). The legal-moves and timing theorems are about requests, as the property's quantifier is: the Python API and "
+            "episode set-up can leave the state machine (power_on() with duration <= 0 from SHUTTING_DOWN: theorem C12_setup_jump, an "
+            "observation related to F-31, not claimed as a violation); the invariants (3)(4) are proved for those entry points too. "
+            "Traffic theorems stop at the interface's `enabled` test (C06/C08 take over).",
+    "technique": "Lean 4 theorems (induction over operation sequences, invariants, statement-list interpretation) over an executable "
+                 "power model; model tied by regenerated tables/shapes/inventories and a differential rig",
     "design_ref": "5/C12",
 }
-MODULES = ["PrimaiteModel.Props.C12"]
+MODULES = ["PrimaiteModel.Props.C12", "PrimaiteModel.Props.C12Deep"]
 EXE = "drv_c12"
 TAIL = [{"op": "tick"}, {"op": "ping", "src": 1, "dst": 0}, {"op": "tick"}, {"op": "tick"}, {"op": "tick"}, {"op": "tick"},
         {"op": "ping", "src": 1, "dst": 0}, {"op": "ping", "src": 0, "dst": 1}]
@@ -58,8 +77,14 @@ def _diff_sig(case: dict, lines: List[str], impl: List[str], model: List[str], i
     w = lines[i].split() if 0 <= i < len(lines) else ["?"]
     op = w[0] + (":" + w[2] if w[0] == "req" and len(w) > 2 else "")
     cls = "?"
-    if w[0] in ("req", "tick", "in") and len(w) > 1 and w[1].isdigit():
+    if w[0] in ("req", "tick", "in", "api", "setdur", "setup") and len(w) > 1 and w[1].isdigit():
         cls = case["nodes"][int(w[1])]["cls"]
+    elif w[0] == "load" and len(w) > 1:
+        cls = w[1]
+    elif w[0] == "pingpath":
+        cls = case["nodes"][0]["cls"]
+    if w[0] == "api" and len(w) > 2:
+        op = "api:" + w[2]
     return {"kind": "model-vs-impl", "op": op, "field": _field_of_diff(impl[i], model[i]) if i < min(len(impl), len(model)) else "length",
             "cls": cls}
 
@@ -115,6 +140,7 @@ def _run_impl_all(cases: List[dict], workers: int):
 def run(ctx: Ctx):
     with lean_lock():
         ctx.extract("Power", x_power.emit)
+        ctx.extract("RequestSchema", x_schema.emit)
         ctx.prove(MODULES, exes=[EXE], clean=False, leanchecker=ctx.thorough)
     ctx.cov["rule"] = ("case = (node classes, start-up/shut-down durations, op sequence over shutdown/startup/reset requests, ticks, "
                        "pings, other node-level requests, frame injections); every answer, every operating_state assignment and "
@@ -129,6 +155,15 @@ def run(ctx: Ctx):
         from primaite.simulator.network.hardware.node_operating_state import NodeOperatingState
         ctx.oblige("gen:stateValues = list(NodeOperatingState)", "correspondence",
                    [(m.name, m.value) for m in NodeOperatingState] == [("ON", 1), ("OFF", 2), ("BOOTING", 3), ("SHUTTING_DOWN", 4)])
+        reg, kinds = rig.live_inventories()
+        gen_nodes = {d: (n, inst) for n, d, inst, _ in x_power.node_inventory() if d}
+        ctx.oblige("gen:nodeClasses = Node._registry (discriminator, class, instantiable)", "correspondence", gen_nodes == reg,
+                   json.dumps({"gen": gen_nodes, "live": reg})[:2000])
+        driven = sorted(n for n, (c, inst) in reg.items() if inst)
+        ctx.oblige("rig drives every instantiable node class", "correspondence", driven == sorted(rig.ALL_CLASSES),
+                   json.dumps({"instantiable": driven, "driven": sorted(rig.ALL_CLASSES)}))
+        ctx.oblige("rig drives every interface class a node carries", "correspondence", kinds == sorted(rig.NIC_KIND),
+                   json.dumps({"carried": kinds, "driven": sorted(rig.NIC_KIND)}))
     except Exception as e:
         ctx.oblige("gen:classTables = live request managers", "correspondence", False, f"{type(e).__name__}: {e}")
 
@@ -143,19 +178,41 @@ def run(ctx: Ctx):
         for k, c in enumerate(rig.exhaustive_pair(depth_all, (u, d, 1, 1))):
             c["ops"] += [dict(o) for o in TAIL]
             cases.append((f"exh{depth_all}:{u},{d}:{k}", c))
-    deeper = [(0, 0)] + rng.shuffle([x for x in all_durs if x != (0, 0)])[: ctx.scale(0, 3)]
+    deeper = [(0, 0)] + rng.shuffle([x for x in all_durs if x != (0, 0)])[: ctx.scale(0, 1)]
     if ctx.thorough:
         for (u, d) in deeper:
             for k, c in enumerate(rig.exhaustive_pair(depth_all + 1, (u, d, 1, 1))):
                 c["ops"] += [dict(o) for o in TAIL]
                 cases.append((f"exh{depth_all + 1}:{u},{d}:{k}", c))
-    # --- random: two hosts, then the six-class network
-    for k in range(ctx.scale(400, 6000)):
+    # --- every node class under test between peers: bounded-exhaustive over the class's own 7-letter alphabet
+    cls_depth = ctx.scale(2, 3)
+    cls_durs = all_durs if ctx.thorough else [(u, d) for (u, d) in all_durs if u != 2 and d != 2]   # quick: {0,1,3}²
+    for cls in rig.ALL_CLASSES:
+        if cls == "computer":
+            continue  # the pair family above
+        for (u, d) in cls_durs:
+            for k, c in enumerate(rig.exhaustive_cls(cls, cls_depth, u, d)):
+                cases.append((f"clsexh{cls_depth}:{cls}:{u},{d}:{k}", c))
+        for k, c in enumerate(rig.exhaustive_cls(cls, cls_depth + 1, 0, 0)):
+            cases.append((f"clsexh{cls_depth + 1}:{cls}:0,0:{k}", c))
+    # --- random: two hosts, the six-class network, every class (requests only / with direct API calls and duration changes),
+    #     whole power cycles from assorted software states, scenario files through the loader
+    for k in range(ctx.scale(400, 4000)):
         cases.append((f"pair:{k}", rig.gen_random_pair(rng, ctx.scale(30, 60))))
-    for k in range(ctx.scale(150, 2500)):
+    for k in range(ctx.scale(150, 1500)):
         cases.append((f"scen:{k}", rig.gen_random_scenario(rng, ctx.scale(30, 60))))
+    for k in range(ctx.scale(320, 4000)):
+        cases.append((f"cls:{k}", rig.gen_random_cls(rng, ctx.scale(30, 60), cls=rig.ALL_CLASSES[k % len(rig.ALL_CLASSES)])))
+    for k in range(ctx.scale(240, 3000)):
+        cases.append((f"clsapi:{k}", rig.gen_random_cls(rng, ctx.scale(30, 60), cls=rig.ALL_CLASSES[k % len(rig.ALL_CLASSES)], api=True)))
+    for k in range(ctx.scale(200, 2000)):
+        cases.append((f"cycle:{k}", rig.gen_cycle(rng)))
+    for k in range(ctx.scale(120, 1000)):
+        cases.append((f"load:{k}", rig.load_case(rng, ctx.scale(16, 40))))
+    for k in range(ctx.scale(100, 1000)):
+        cases.append((f"sess:{k}", rig.gen_sessions(rng)))
 
-    workers = max(1, min(14, (os.cpu_count() or 2) - 2))
+    workers = int(os.environ.get("C12_WORKERS", "0")) or max(1, min(14, (os.cpu_count() or 2) - 2))
     results = _run_impl_all([c for _, c in cases], workers)
     lines_all: List[str] = []
     bounds = []
@@ -178,28 +235,53 @@ def run(ctx: Ctx):
         refused = any(m.startswith("failure") or m.startswith("unreachable") for m in model)
         ctx.case(case, left_on or refused)
         ctx.count("family:" + name.split(":")[0])
+        if case["kind"] == "cls":
+            ctx.count("under-test:" + case["nodes"][0]["cls"])
+        else:
+            for c in sorted({sp["cls"] for sp in case["nodes"]}):
+                ctx.count("present:" + c)
         for q, m in zip(lines, model):
             w = q.split()
             if m == "bad-op":
                 raise RuntimeError(f"driver rejected line {q!r}")
             if w[0] == "req":
                 ctx.count(f"req:{w[2]}:{m.split()[0]}")
+                ctx.count(f"class:{case['nodes'][int(w[1])]['cls']}:req")
                 if "h=" in m and " h=- " not in m:
                     ctx.count("trace:" + m.split()[1][2:])
             elif w[0] == "tick":
                 if " h=- " not in m:
                     ctx.count("trace:" + m.split()[1][2:])
-            elif w[0] in ("ping", "in"):
+                ctx.count(f"class:{case['nodes'][int(w[1])]['cls']}:tick")
+                st_after = next((t[3:] for t in m.split() if t.startswith("st=")), "?")
+                work_tags = "".join(sorted({t[:2] for t in m.split()[2][2:].split(",") if t}))
+                ctx.count(f"work:{'ON' if st_after == 'ON' else 'not-ON'}:{work_tags or 'none'}")
+            elif w[0] in ("ping", "in", "pingpath"):
                 ctx.count(f"{w[0]}:{m}")
+            elif w[0] == "api":
+                ctx.count(f"api:{w[2]}")
+                if " h=- " not in m:
+                    ctx.count("apitrace:" + m.split()[1][2:])
+            elif w[0] == "load":
+                ctx.count(f"load:{w[1]}:declared={w[2]}:{m.split()[2][3:]}")
+            elif w[0] == "setup":
+                ctx.count("setup:" + (m.split()[1][2:] if " h=- " not in m else "no-assignment"))
+            elif w[0] == "setdur":
+                ctx.count("setdur:" + ("neg" if "-" in w[2] + w[3] else "huge" if len(w[2]) > 6 or len(w[3]) > 6 else "small"))
         i = _first_diff(lines, impl, model)
         if i < 0 and not oracle:
             agree += 1
-            if name.startswith(("pair", "scen")):
-                ctx.sample({"case": name, "lines": lines[:10], "answers": model[:10]}, cap=4)
+            if name.startswith(("pair", "scen", "cls:", "load", "cycle")):
+                ctx.sample({"case": name, "lines": lines[:10], "answers": model[:10]}, cap=8)
             continue
         if oracle:
             oracle_bad += 1
         # a disagreement with the proved model on a property observable, or a property oracle failing on the implementation
+        batch_sigs = {json.dumps(_oracle_sig(o), sort_keys=True) for o in oracle}
+        if i >= 0:
+            batch_sigs.add(json.dumps(_diff_sig(case, lines, impl, model, i), sort_keys=True))
+        if batch_sigs <= reported:
+            continue  # nothing new in this trace: every signature it shows has been reported (with a replay) already
         fails0, *_ = _eval_case(case)
         sigs0 = {json.dumps(f["sig"], sort_keys=True) for f in fails0}
         if not fails0:  # seen in the batch but not when the case is run again on its own: keep what was seen
@@ -214,7 +296,10 @@ def run(ctx: Ctx):
             def still(ops, case=case, key=key):
                 fs, *_ = _eval_case(dict(case, ops=ops))
                 return any(json.dumps(f["sig"], sort_keys=True) == key for f in fs)
-            small_ops = shrink_ops(case["ops"], still, budget=120) if len(case["ops"]) > 1 else case["ops"]
+            # the first few distinct signatures are minimised; the rest are reported as found (a defect that touches every
+            # node class produces dozens of signatures, and each shrink step re-runs implementation and model)
+            budget = 120 if len(reported) <= 6 else 12 if len(reported) <= 16 else 0
+            small_ops = shrink_ops(case["ops"], still, budget=budget) if len(case["ops"]) > 1 and budget else case["ops"]
             small = dict(case, ops=small_ops)
             fs, lines2, impl2, model2 = _eval_case(small)
             hit = next((f for f in fs if json.dumps(f["sig"], sort_keys=True) == key), None)
@@ -226,4 +311,11 @@ def run(ctx: Ctx):
     ctx.oblige("rig:R-node agrees on every trace", "correspondence", agree == len(cases),
                f"{len(cases) - agree} of {len(cases)} traces disagree or fail an oracle; not reproduced alone: {json.dumps(unstable)[:1500]}")
     ctx.notes.append(f"cases={len(cases)} lines={len(lines_all)} workers={workers} exhaustive depth {depth_all} over 16 duration pairs"
-                     + (f", depth {depth_all + 1} over {deeper}" if ctx.thorough else ""))
+                     + (f", depth {depth_all + 1} over {deeper}" if ctx.thorough else "")
+                     + f"; class family: depth {cls_depth} over {len(cls_durs)} duration pairs + depth {cls_depth + 1} at (0,0), 7 classes")
+    ctx.notes.append("node classes under test (cases): " + ", ".join(
+        f"{c}={ctx.hist.get('under-test:' + c, 0) + (ctx.hist.get('family:exh' + str(depth_all), 0) if c == 'computer' else 0)}"
+        for c in rig.ALL_CLASSES))
+    ctx.notes.append("ticks observed with the node not ON afterwards: " + ", ".join(
+        f"{k[5:]}={v}" for k, v in sorted(ctx.hist.items()) if k.startswith("work:not-ON")) +
+        " (tags: pn/ps/pa/pf = pre_timestep of interfaces/services/applications/file system, tn/ts/ta/tf = apply_timestep)")
